@@ -36,7 +36,7 @@ func init() {
 			}
 			q := base("eth")
 			return []registry.Job{
-				{Name: "eth", Spec: q, Depth: 7, ShardDepth: 2},
+				{Name: "eth", Spec: q, Depth: 6, ShardDepth: 2},
 				{Name: "eth-rebond-life-cycle", Spec: &vote.Spec{Prop: "C01", Chain: "eth", Stakes: []int64{10000, 10000, 10000, 10000}, Variants: []string{"A"}, MaxNonce: 3, Rebond: true}, Depth: 9, ShardDepth: 2},
 				{Name: "execute-claim-reentrancy", Custom: reentrancy, Shards: 4},
 			}
